@@ -41,8 +41,39 @@ def renderActive (name : σ → String) [DecidableEq σ] (a : Active σ) : Json 
 def renderBook (b : Book String) : Json :=
   jarr ((sortBy (·.1) b).map fun p => jstrs [p.1, if p.2 == 0 then "empty" else s!"v{p.2}"])
 
-def snapshot (st : St String) (calls : Trace String) (err : Option Bool) : Json :=
+/-- the one path expression of content `h`: `h` and `h + 500` (below 500) use the same one (as the harness renders it) -/
+def pathOf (h : Nat) : Nat := if h < 1000 then h % 500 else h
+
+/-- every content number of the case stands for a path expression to be looked up after every step -/
+partial def versionsOf (j : Json) : List Nat :=
+  match j with
+  | .obj kvs => kvs.foldl (init := []) fun acc k v =>
+      if k == "v" then (match v.getNat? with | .ok n => if n > 0 && n < 1000 then pathOf n :: acc else acc | _ => acc)
+      else versionsOf v ++ acc
+  | .arr xs => xs.foldl (init := []) fun acc x => versionsOf x ++ acc
+  | _ => []
+
+def probesOf (c : Json) : List Nat := ((versionsOf c).eraseDups.toArray.qsort (· < ·)).toList
+
+/-- what `FindRule` answers for each probed expression: the first loaded rule set using it -/
+def renderServed (name : σ → String) (a : Active σ) (probes : List Nat) : Json :=
+  jarr (probes.filterMap fun p =>
+    (a.find? fun x => pathOf x.2 == p).map fun x => jstrs [s!"/c{p}", name x.1, s!"v{x.2}"])
+
+/-- The repository lets one source own a path expression (`WithValuesConstraints` of `newRepository`, C06): `OnCreated` /
+`OnUpdated` with a content whose expression is owned by another source is refused.  The provider models take refusals
+as input; this derives the refusals of a step from the rule sets loaded before it (exact for steps with one call). -/
+def clashes (a : Active String) : Call String → Bool
+  | .created s h => a.any fun p => p.1 != s && pathOf p.2 == pathOf h
+  | .updated s h => a.any fun p => p.1 != s && pathOf p.2 == pathOf h
+  | .deleted _ => false
+
+def repoRej (calls : List String → Trace String) (a : Active String) (rej0 : List String) : List String :=
+  rej0 ++ ((calls rej0).filterMap fun c => if c.2 && clashes a c.1 then some c.1.src else none)
+
+def snapshot (probes : List Nat) (st : St String) (calls : Trace String) (err : Option Bool) : Json :=
   Json.mkObj ([("calls", jarr (calls.map (renderCall id))), ("active", renderActive id st.active),
+    ("served", renderServed id st.active probes),
     ("book", renderBook st.book)] ++ match err with | some e => [("err", Json.bool e)] | none => [])
 
 /-! SPEC oracle: the content every source has to have loaded, computed from the observations alone -/
@@ -94,10 +125,16 @@ def runFS (c : Json) (live : Bool) : E Json := do
   let init ← (arrD c "init").mapM fun f => do
     pure (← nat f "k", ← fld f "file")
   let init := (init.toArray.qsort (fun a b => a.1 < b.1)).toList
-  let files ← init.mapM fun (k, spec) => do pure (srcName k, ← fileState spec)
+  let probes := probesOf c
+  -- directory entries: "link" = symbolic link (state = the one of its target), "dir" without link = sub directory
+  let entries ← init.mapM fun (k, spec) => do
+    let kind : EntryKind := if boolD spec "link" false then .symlink
+      else if strD spec "st" "" == "dir" then .directory else .regular
+    pure (srcName k, kind, ← fileState spec)
+  let files := fsSources entries
   let startStep := fldD c "start" (Json.mkObj [])
   let startRej := rejOf startStep (init.filterMap fun (k, spec) => if isBad spec then some k else none)
-  let o0 := fsInit startRej St.init files
+  let o0 := fsStart startRej entries
   let mut st := o0.st
   let mut out : List Json := []
   -- the files `Start` gets to see: up to the first one it fails on
@@ -117,12 +154,13 @@ def runFS (c : Json) (live : Bool) : E Json := do
         [(natD step "to" (natD step "k" 0))] else []
       let evs ← liveEvents step (rejOf step bad)
       let mut calls : Trace String := []
-      for e in evs do
+      for e0 in evs do
+        let e := { e0 with rej := repoRej (fun r => (fsStep st { e0 with rej := r }).calls) st.active e0.rej }
         let o := fsStep st e
         st := o.st
         calls := calls ++ o.calls
         des := desStep des ((fileSystem : Provider String _).obs e)
-      out := out ++ [snapshot st calls none]
+      out := out ++ [snapshot probes st calls none]
       specs := specs ++ [renderDes des]
     else
       let spec ← fld step "file"
@@ -130,13 +168,14 @@ def runFS (c : Json) (live : Bool) : E Json := do
       let ops ← (← strs step "ops").mapM fsOp
       -- a rule set the processor refuses by itself matters only if the file is read
       let reads := ops.contains .create || ops.contains .write || ops.contains .chmod
-      let e : FsEvent String := ⟨ops, srcName k, ← fileState spec, rejOf step (if isBad spec && reads then [k] else [])⟩
+      let e0 : FsEvent String := ⟨ops, srcName k, ← fileState spec, rejOf step (if isBad spec && reads then [k] else [])⟩
+      let e := { e0 with rej := repoRej (fun r => (fsStep st { e0 with rej := r }).calls) st.active e0.rej }
       let o := fsStep st e
       st := o.st
       des := desStep des ((fileSystem : Provider String _).obs e)
-      out := out ++ [snapshot st o.calls (some o.err)]
+      out := out ++ [snapshot probes st o.calls (some o.err)]
       specs := specs ++ [renderDes des]
-  return Json.mkObj [("res", Json.mkObj [("start", snapshot o0.st o0.calls (some o0.err)), ("steps", jarr out)]),
+  return Json.mkObj [("res", Json.mkObj [("start", snapshot probes o0.st o0.calls (some o0.err)), ("steps", jarr out)]),
     ("spec", jarr specs)]
 
 /-! http_endpoint -/
@@ -161,11 +200,12 @@ def runHTTP (c : Json) : E Json := do
   for step in arrD c "steps" do
     let spec ← fld step "resp"
     let k ← nat step "k"
-    let e : HttpEvent String := ⟨srcName k, ← httpOutcome spec, rejOf step (if isBad spec then [k] else [])⟩
+    let e0 : HttpEvent String := ⟨srcName k, ← httpOutcome spec, rejOf step (if isBad spec then [k] else [])⟩
+    let e := { e0 with rej := repoRej (fun r => (httpStep st { e0 with rej := r }).calls) st.active e0.rej }
     let o := httpStep st e
     st := o.st
     des := desStep des ((httpEndpoint : Provider String _).obs e)
-    out := out ++ [snapshot st o.calls none]
+    out := out ++ [snapshot (probesOf c) st o.calls none]
     specs := specs ++ [renderDes des]
   return Json.mkObj [("res", Json.mkObj [("steps", jarr out)]), ("spec", jarr specs)]
 
@@ -221,7 +261,7 @@ def runBlob (c : Json) : E Json := do
     let o := blobStep st e
     st := o.st
     des := desStep des ((cloudBlob : Provider String _).obs e)
-    out := out ++ [snapshot st (sortDeletes o.calls) none]
+    out := out ++ [snapshot (probesOf c) st (sortDeletes o.calls) none]
     specs := specs ++ [renderDes des]
   return Json.mkObj [("res", Json.mkObj [("steps", jarr out)]), ("spec", jarr specs)]
 
@@ -232,10 +272,10 @@ def kObj (k : Nat) (spec : Json) : E (KObj String) := do
 
 def kName (s : String × Nat) : String := s!"{s.1}u{s.2}"
 
-def kSnapshot (st : KSt String) (calls : Trace (String × Nat)) (sorted : Bool) : Json :=
+def kSnapshot (probes : List Nat) (st : KSt String) (calls : Trace (String × Nat)) (sorted : Bool) : Json :=
   let calls := if sorted then stableSort (fun c => kName c.1.src) calls else calls
   Json.mkObj [("calls", jarr (calls.map (renderCall kName))), ("active", renderActive kName st.active),
-    ("panic", Json.bool false)]
+    ("served", renderServed kName st.active probes), ("panic", Json.bool false)]
 
 def kObjs (l : List Json) : E (List (KObj String) × List Nat) := do
   let l ← l.mapM fun o => do pure (← nat o "k", ← fld o "obj")
@@ -254,7 +294,7 @@ def runK8s (c : Json) : E Json := do
       let (objs, bad) ← kObjs (arrD step "objs")
       let o := kStep (rejOf step bad) st (.relist objs)
       st := o.st
-      out := out ++ [kSnapshot st o.calls true]
+      out := out ++ [kSnapshot (probesOf c) st o.calls true]
     else
       let k ← nat step "k"
       let spec ← fld step "obj"
@@ -267,8 +307,8 @@ def runK8s (c : Json) : E Json := do
       -- rules the processor refuses by themselves matter only where the rules are loaded
       let o := kStep (rejOf step (if boolD spec "bad" false && ev != "del" then [k] else [])) st e
       st := o.st
-      out := out ++ [kSnapshot st o.calls false]
-  return Json.mkObj [("res", Json.mkObj [("start", kSnapshot o0.st o0.calls true), ("steps", jarr out)])]
+      out := out ++ [kSnapshot (probesOf c) st o.calls false]
+  return Json.mkObj [("res", Json.mkObj [("start", kSnapshot (probesOf c) o0.st o0.calls true), ("steps", jarr out)])]
 
 def run (c : Json) : E Json := do
   match ← str c "kind" with
